@@ -54,7 +54,7 @@ let run_sl ops =
 
 (* ---------------- lru *)
 let lru_op t = match split ':' t with
-  | ["ins"; k; v] -> LruInsert (nat_of_int (ios k), ios v) | ["touch"; k] -> LruTouch (nat_of_int (ios k))
+  | ["ins"; k; v] -> LruInsert (nat_of_int (ios k), ios v) | ["touch"; k] | ["ins1"; k] -> LruTouch (nat_of_int (ios k))
   | ["popf"] -> LruPopFront | ["popb"] -> LruPopBack | ["rsz"; n] -> LruResize (nat_of_int (ios n)) | ["cl"] -> LruClear
   | _ -> failwith ("bad lru op " ^ t)
 let lru_obs (((r, n), fb), fs) =
@@ -72,7 +72,9 @@ let run_lru nk ops =
 
 (* ---------------- ReservedVector *)
 let rv_op t = match split ':' t with
-  | ["pb"; i; v] -> RvPush (bi i, ios v) | ["pop"; i] -> RvPop (bi i) | ["rsz"; i; k] -> RvResize (bi i, nat_of_int (ios k))
+  | [("pb" | "pbm" | "eb"); i; v] -> RvPush (bi i, ios v) | ["pop"; i] -> RvPop (bi i) | ["rsz"; i; k] -> RvResize (bi i, nat_of_int (ios k))
+  | ["mkd"; i; c] -> RvMake (bi i, nat_of_int (ios c), 0)
+  | ["il"; i; k] -> RvFrom (bi i, List.init (ios k) (fun j -> j + 1))
   | ["cl"; i] -> RvClear (bi i) | ["set"; i; j; v] -> RvSet (bi i, nat_of_int (ios j), ios v) | ["fill"; i; v] -> RvFill (bi i, ios v)
   | ["mk"; i; c; v] -> RvMake (bi i, nat_of_int (ios c), ios v)
   | ["from"; i; l] -> RvFrom (bi i, if l = "" then [] else List.map ios (split ',' l))
@@ -99,10 +101,10 @@ let run_rv n ops =
 let bop = function "and" | "andb" -> BvAnd | "or" | "orb" -> BvOr | _ -> BvXor
 let bv_op t = let n s = nat_of_int (ios s) in match split ':' t with
   | ["rsz"; k; v] -> BvResize (n k, bi v) | ["cl"] -> BvClear | ["sall"] -> BvSetAll | ["uall"] -> BvUnsetAll
-  | ["set"; i; j; v] -> BvSet (n i, n j, bi v) | ["flip"; i; j] -> BvFlipBit (n i, n j)
+  | [("set" | "sidx"); i; j; v] -> BvSet (n i, n j, bi v) | ["rbit"; i; j] -> BvSet (n i, n j, false) | ["flip"; i; j] -> BvFlipBit (n i, n j)
   | ["bset"; i] -> BvSetBlock (n i) | ["breset"; i] -> BvResetBlock (n i) | ["bflip"; i] -> BvFlipBlock (n i)
   | ["abool"; i; v] -> BvAssignBool (n i, bi v) | ["abits"; i; b] -> BvAssignBits (n i, bits_of_string b)
-  | ["ablk"; i; k] -> BvAssignBlock (n i, n k)
+  | [("ablk" | "ablkc"); i; k] -> BvAssignBlock (n i, n k)
   | [("and" | "or" | "xor") as o; i; b] -> BvOpBits (bop o, n i, bits_of_string b)
   | [("andb" | "orb" | "xorb") as o; i; k] -> BvOpBlock (bop o, n i, n k)
   | ["shl"; i; k] -> BvShl (n i, n k) | ["shr"; i; k] -> BvShr (n i, n k)
